@@ -101,6 +101,7 @@ func NewGoMetricsMetricRegistry(
 func (r *MetricRegistry) Start() {
 	r.mu.Lock()
 	if !r.started {
+		r.started = true
 		r.wg.Add(1)
 		go func() {
 			defer r.wg.Done()
@@ -138,10 +139,11 @@ func (r *MetricRegistry) Stop() {
 		r.mu.Unlock()
 		return
 	}
+	r.started = false
+	// release the mutex before waiting: the poller takes it on every tick
+	r.mu.Unlock()
 	r.stopper <- true
 	r.wg.Wait()
-	r.started = false
-	r.mu.Unlock()
 }
 
 // RegisterDistribution will register a distribution sample to this registry
